@@ -4,7 +4,19 @@ import json
 import sys
 
 pid = sys.argv[1]
-wt = f"/tmp/rt_{pid}"
+rnd = sys.argv[2] if len(sys.argv) > 2 else ""
+wt = f"/tmp/rt{rnd}_{pid}"
+avoid = ""
+if rnd:
+    import glob
+    import os
+    items = []
+    for d in sorted(glob.glob(os.path.join(os.path.dirname(os.path.dirname(os.path.abspath(__file__))), "seeded", pid + "-*", "meta.json"))):
+        m = json.load(open(d))
+        items.append("  - " + m["summary"][:260])
+    if items:
+        avoid = ("\n\nChanges of the following kinds have ALREADY been produced by someone else for this property; do not repeat them or close variants "
+                 "(different file, different mechanism, different trigger wanted):\n" + "\n".join(items))
 for l in open("/verif/properties.jsonl"):
     p = json.loads(l)
     if p["id"] == pid:
@@ -19,7 +31,7 @@ THE PROPERTY the library is supposed to satisfy:
   statement: {p['statement']}
   quantified over: {p['quantifier']['text']}
 
-YOUR TASK: produce THREE different changes to the library source (each independent, each starting from the untouched worktree state) that BREAK this property while the code still imports and the existing test suite still passes (same 53 pass). Make them the kind of change a real refactoring or "optimisation" or off-by-one slip would introduce — not sabotage that ordinary use would expose at once. Each change must need something specific to manifest: an unusual but legitimate input (e.g. a particular calendar span, an even/odd parameter, ties, a boundary value, a particular configuration or option, a particular grid shape), a multi-step sequence of calls, or two cooperating edits that each look fine alone. Vary the mechanism and the file touched across the three changes where the property allows it. Keep each patch small (a few lines).
+YOUR TASK: produce THREE different changes to the library source (each independent, each starting from the untouched worktree state) that BREAK this property while the code still imports and the existing test suite still passes (same 53 pass). Make them the kind of change a real refactoring or "optimisation" or off-by-one slip would introduce — not sabotage that ordinary use would expose at once. Each change must need something specific to manifest: an unusual but legitimate input (e.g. a particular calendar span, an even/odd parameter, ties, a boundary value, a particular configuration or option, a particular grid shape), a multi-step sequence of calls, or two cooperating edits that each look fine alone. Vary the mechanism and the file touched across the three changes where the property allows it. Keep each patch small (a few lines).{avoid}
 
 For EACH change k = 1, 2, 3 deliver in {wt}/out/change_k/ :
   * patch.diff  — `git diff` of the library source against the untouched worktree (only files under ibicus/; apply-able with `git apply` from the repository root);
